@@ -162,6 +162,22 @@ claim("C09",
       "Lean 4 proof (squash invariant through the scanner) + model/implementation correspondence",
       "DESIGN.md §7 C09")
 
+claim("C02",
+      "Lean theorems on the layers whose idempotence is a statement about the model: WRAP_FIX (for every word list, "
+      "width, columns and both escape modes, greedy fill applied to the words of its own output reproduces the same "
+      "lines, introduced Markdown escapes included — by induction with the escape shown idempotent and length-monotone), "
+      "ESCAPE_IDEM, FM_FIX (an unclosed-frontmatter document is a fixed point of the shell), and kernel-checked "
+      "counter-witnesses TRANSFORM_IDEM_false (smart quotes with overlapping pairs, unbolding of nested strong). "
+      "Document level fmt(fmt x) = fmt x (bytes) is decided end-to-end: special documents, clean and hazard generator "
+      "streams × sampled points of the full option product, plaintext paragraphs × widths, with counterfactual "
+      "attribution of failures to KNOWN_FINDINGS; ties of the full wrappers and the renderer run in the same check.",
+      COMMON_NOTE + "Idempotence of the whole pipeline depends on Marko re-parsing the output (P-par) and is therefore "
+      "not a theorem; only the wrapper, escape and frontmatter layers are. Seven defects found by this check were "
+      "repaired in flowmark; five are recorded as known findings.",
+      "Lean 4 proof (fixed point of greedy fill + escape by induction; frontmatter shell) + model/implementation "
+      "correspondence + end-to-end double-format oracle",
+      "DESIGN.md §7 C02")
+
 NOT_YET = {
 }
 
